@@ -204,11 +204,81 @@ func C11EnumSize() int {
 	return len(c11Enum)*3 + len(oddRecharge)*3
 }
 
+// genNotifyCallback: a recharge whose notification makes the SMF send a request for the same
+// subscriber before it answers the notification (or answers it slowly while another task
+// sends one).  Nothing is faulty and every peer is prompt, so every request must be too.
+func genNotifyCallback(g *gen) *Scenario {
+	supi := supiN(1)
+	g.sc.Cfg.MaxLatNs = 2_000_000
+	g.sc.Cfg.YieldPermille = 0
+	g.sc.Cfg.DBDelayMaxNs = 0
+	g.sc.Accounts = []Account{{Supi: supi, RG: 1, Quota: 5_000_000, UnitCost: "2"}}
+	pro := []Op{{ID: g.id(), Kind: "create", Supi: supi, Sess: "s", Consumer: "smf", ChargingID: 4, NotifyURI: "http://smf.sim/notify/" + supi, Role: "setup"},
+		{ID: g.id(), Kind: "update", Supi: supi, Sess: "s", Role: "setup", Units: []Unit{{RG: 1, Req: 500, Containers: []Container{g.online(0)}}}}}
+	cb := Op{Kind: "update", Supi: supi, Sess: "s", Units: []Unit{{RG: 1, Req: 100, Containers: []Container{g.online(500)}}}}
+	switch g.r.Intn(3) {
+	case 1:
+		cb = Op{Kind: "create", Supi: supi, Sess: "cb", Consumer: "smf2", ChargingID: 5}
+	case 2:
+		cb.Units[0].Containers = []Container{g.offline()}
+	}
+	variant := g.r.Intn(2)
+	if variant == 0 {
+		// the SMF calls back from inside its notification handler
+		g.sc.Cfg.SinkCallback = &cb
+		pro = append(pro, Op{ID: g.id(), Kind: "recharge", Supi: supi, RG: 1, Role: "probe", Sess: "recharge-with-callback"},
+			Op{ID: g.id(), Kind: "update", Supi: supi, Sess: "s", Role: "followup", Units: []Unit{{RG: 1, Req: 100, Containers: []Container{g.online(0)}}}})
+		g.sc.Tasks = []Task{{ID: 0, Ops: pro}}
+	} else {
+		// the SMF is slow to answer the notification while another request of the subscriber arrives
+		g.sc.Cfg.Concurrent = true
+		g.sc.Cfg.SinkDelayNs = 9_000_000_000
+		during := cb
+		during.ID = g.id()
+		during.Role = "during-notification"
+		g.sc.Tasks = []Task{{ID: 0, Ops: pro},
+			{ID: 1, StartNs: 1_000_000_000, Ops: []Op{{ID: g.id(), Kind: "recharge", Supi: supi, RG: 1, Role: "probe", Sess: "recharge-slow-smf"}}},
+			{ID: 2, StartNs: 1_000_000_000 + g.r.Range(100_000_000, 3_000_000_000), Ops: []Op{during}}}
+	}
+	g.sc.Shape = fmt.Sprintf("notify-callback variant=%d cb=%s", variant, cb.Kind)
+	return g.sc
+}
+
+// genC11History: a well-formed but long history that crosses the 64 KiB record split once
+// or twice ("any order of requests"): every request must still be answered without 5xx.
+func genC11History(g *gen) *Scenario {
+	supi := supiN(1)
+	g.sc.Cfg.MaxLatNs = 300_000
+	g.sc.Accounts = []Account{{Supi: supi, RG: 1, Quota: 3_000_000_000, UnitCost: "1"}}
+	s := &sessState{name: "s", supi: supi, rgs: []int32{1}}
+	ops := []Op{{ID: g.id(), Kind: "create", Supi: supi, Sess: "s", Consumer: "smf", ChargingID: 1, Role: "setup"}}
+	for i, n := 0, 9+g.r.Intn(8); i < n; i++ {
+		op := g.cdrUsageOp("update", s, 300+g.r.Intn(200), false, false)
+		op.Role = "probe"
+		op.Sess = "s"
+		ops = append(ops, op)
+	}
+	rel := g.cdrUsageOp("release", s, 1+g.r.Intn(5), true, false)
+	rel.Role = "followup"
+	ops = append(ops, rel)
+	g.sc.Shape = "history split-crossing"
+	g.sc.Tasks = []Task{{ID: 0, Ops: ops}}
+	return g.sc
+}
+
 func GenC11(seed uint64) *Scenario {
 	if c11Enum == nil {
 		buildC11Enum()
 	}
 	g := newGen("C11", seed)
+	if idx := int(seed & 0xFFFFF); idx >= C11EnumSize() || idx%97 == 96 {
+		switch r := g.r.Intn(100); {
+		case r < 10:
+			return genNotifyCallback(g)
+		case r < 12:
+			return genC11History(g)
+		}
+	}
 	g.sc.Cfg.MaxLatNs = 300_000
 	g.sc.Cfg.OpBudgetNs = 60_000_000_000
 	idx := int(seed & 0xFFFFF)
@@ -621,6 +691,9 @@ func GenC19(seed uint64) *Scenario {
 
 func GenC09(seed uint64) *Scenario {
 	g := newGen("C09", seed)
+	if g.r.Chance(80) {
+		return genNotifyCallback(g)
+	}
 	g.sc.Cfg.Concurrent = true
 	g.sc.Cfg.MaxLatNs = []int64{300_000, 2_000_000, 10_000_000}[g.r.Intn(3)]
 	g.sc.Cfg.YieldPermille = []int{0, 10, 50, 150, 300}[g.r.Intn(5)]
@@ -710,6 +783,9 @@ func GenC09(seed uint64) *Scenario {
 						u.Containers = append(u.Containers, g.offline())
 					}
 					op := Op{ID: g.id(), Kind: "update", Supi: st.supi, Sess: st.name, Units: []Unit{u}, Final: g.r.Chance(80)}
+					if !op.Final && g.r.Chance(200) {
+						op.Triggers = []Trig{partialTriggers[g.r.Intn(3)]} // closes a partial record
+					}
 					ops = append(ops, op)
 				}
 			}
